@@ -141,6 +141,30 @@ def gen_command(rng, db, ops=None, odd=True, **kw):
     return {"operation": operation, "data": [gen_criterion(rng, db, base, **kw) for _ in range(n)]}
 
 
+def gen_pipeline(rng, db, n, reuse_p=0.35, **kw):
+    """Commands for one filter. A taxon pattern met earlier in the pipeline is reused with probability `reuse_p`
+    (alone or inside a triple): commands that resolve to the same set of taxa must not influence one another
+    (seeded change C06-d: a memoised set of programs mutated in place by a negated triple)."""
+    memory, cmds = [], []
+    for _ in range(n):
+        c = gen_command(rng, db, **kw)
+        data = []
+        for crit in c["data"]:
+            if memory and isinstance(crit, str) and not crit.endswith(".py") and rng.random() < reuse_p:
+                crit = rng.choice(memory)
+            elif memory and isinstance(crit, list):
+                crit = [rng.choice(memory) if rng.random() < reuse_p else crit[0], crit[1],
+                        rng.choice(memory) if rng.random() < reuse_p / 2 else crit[2]]
+            data.append(crit)
+        c["data"] = data
+        cmds.append(c)
+        for crit in data:
+            for pat in ([crit] if isinstance(crit, str) else [crit[0], crit[2]]):
+                if not pat.endswith(".py") and pat not in memory:
+                    memory.append(pat)
+    return cmds
+
+
 def all_patterns(cmds):
     out = []
     for c in cmds:
